@@ -181,3 +181,191 @@ theorem AInv_empty (flags : List Bool) (h : AInv flags []) : flags = List.replic
   · simp [hj]
 
 end RPVerif.Raptor
+
+namespace RPVerif.Raptor
+open List
+
+abbrev BL := List (Option Nat × List Nat)
+
+theorem blGet_cons_pos (e : Option Nat × List Nat) (es : BL) (k : Option Nat) (h : e.1 = k) : blGet (e :: es) k = e.2 := by
+  unfold blGet; rw [find?_cons_of_pos (by simpa using h)]
+
+theorem blGet_cons_neg (e : Option Nat × List Nat) (es : BL) (k : Option Nat) (h : ¬ e.1 = k) : blGet (e :: es) k = blGet es k := by
+  unfold blGet; rw [find?_cons_of_neg (by simpa using h)]
+
+theorem blGet_map (b : BL) (k k' : Option Nat) (ts : List Nat) :
+    blGet (b.map (fun e => if e.1 = k then (e.1, e.2 ++ ts) else e)) k'
+      = if k' = k ∧ b.any (fun e => e.1 = k) = true then blGet b k ++ ts else blGet b k' := by
+  induction b with
+  | nil => simp [blGet]
+  | cons e es ih =>
+    rw [map_cons]
+    by_cases he : e.1 = k
+    · rw [if_pos he]
+      by_cases hk : k' = k
+      · subst hk
+        rw [blGet_cons_pos _ _ _ (by simpa using he), blGet_cons_pos _ _ _ he]
+        simp [he]
+      · have hne : ¬ e.1 = k' := fun h => hk (h ▸ he ▸ rfl)
+        rw [blGet_cons_neg _ _ _ (by simpa using hne), ih, blGet_cons_neg _ _ _ hne]
+        simp [hk]
+    · rw [if_neg he]
+      by_cases hk' : e.1 = k'
+      · have hkk : ¬ k' = k := fun h => he (hk' ▸ h)
+        rw [blGet_cons_pos _ _ _ hk', blGet_cons_pos _ _ _ hk']
+        simp [hkk]
+      · rw [blGet_cons_neg _ _ _ hk', ih, blGet_cons_neg _ _ _ hk', blGet_cons_neg _ _ _ he]
+        have hany : (e :: es).any (fun e => decide (e.1 = k)) = es.any (fun e => decide (e.1 = k)) := by
+          rw [any_cons]
+          have : decide (e.1 = k) = false := decide_eq_false he
+          rw [this, Bool.false_or]
+        rw [hany]
+
+theorem blGet_none_of_not_any (b : BL) (k : Option Nat) (h : ¬ b.any (fun e => e.1 = k) = true) : blGet b k = [] := by
+  unfold blGet
+  have : b.find? (fun e => decide (e.1 = k)) = none := by
+    apply find?_eq_none.mpr
+    intro e he hk
+    exact h (any_eq_true.mpr ⟨e, he, hk⟩)
+  rw [this]
+
+theorem blGet_append_single (b : BL) (k k' : Option Nat) (ts : List Nat) (h : ¬ b.any (fun e => e.1 = k) = true) :
+    blGet (b ++ [(k, ts)]) k' = if k' = k then ts else blGet b k' := by
+  induction b with
+  | nil =>
+    by_cases hk : k' = k
+    · subst hk; simp [blGet]
+    · have : ¬ k = k' := fun h => hk h.symm
+      simp [blGet, hk, this]
+  | cons e es ih =>
+    have he : ¬ e.1 = k := by
+      intro hh; exact h (by simp [hh])
+    have hes : ¬ es.any (fun e => e.1 = k) = true := by
+      intro hh; exact h (by simp only [any_cons, Bool.or_eq_true]; exact Or.inr hh)
+    rw [cons_append]
+    by_cases hk' : e.1 = k'
+    · have hkk : ¬ k' = k := fun h => he (hk' ▸ h)
+      rw [blGet_cons_pos _ _ _ hk', blGet_cons_pos _ _ _ hk']; simp [hkk]
+    · rw [blGet_cons_neg _ _ _ hk', ih hes, blGet_cons_neg _ _ _ hk']
+
+theorem blGet_add (b : BL) (k k' : Option Nat) (ts : List Nat) :
+    blGet (blAdd b k ts) k' = if k' = k then blGet b k ++ ts else blGet b k' := by
+  unfold blAdd
+  by_cases hany : b.any (fun e => e.1 = k) = true
+  · rw [if_pos hany, blGet_map]; simp [hany]
+  · rw [if_neg hany, blGet_append_single _ _ _ _ hany]
+    by_cases hk : k' = k
+    · subst hk; simp [blGet_none_of_not_any _ _ hany]
+    · simp [hk]
+
+theorem blGet_del (b : BL) (k k' : Option Nat) : blGet (blDel b k) k' = if k' = k then [] else blGet b k' := by
+  unfold blDel
+  induction b with
+  | nil => simp [blGet]
+  | cons e es ih =>
+    by_cases he : e.1 = k
+    · have hf : (e :: es).filter (fun e => decide (e.1 ≠ k)) = es.filter (fun e => decide (e.1 ≠ k)) := by
+        rw [filter_cons]; simp [he]
+      rw [hf, ih]
+      by_cases hk : k' = k
+      · simp [hk]
+      · have : ¬ e.1 = k' := fun h => hk (h ▸ he ▸ rfl)
+        simp [hk, blGet_cons_neg _ _ _ this]
+    · have hf : (e :: es).filter (fun e => decide (e.1 ≠ k)) = e :: es.filter (fun e => decide (e.1 ≠ k)) := by
+        rw [filter_cons]; simp [he]
+      rw [hf]
+      by_cases hk' : e.1 = k'
+      · have hkk : ¬ k' = k := fun h => he (hk' ▸ h)
+        rw [blGet_cons_pos _ _ _ hk', blGet_cons_pos _ _ _ hk']; simp [hkk]
+      · rw [blGet_cons_neg _ _ _ hk', ih, blGet_cons_neg _ _ _ hk']
+
+theorem blGet_filter (b : BL) (k : Option Nat) (p : Nat → Bool) :
+    blGet (b.map (fun e => (e.1, e.2.filter p))) k = (blGet b k).filter p := by
+  induction b with
+  | nil => simp [blGet]
+  | cons e es ih =>
+    rw [map_cons]
+    by_cases he : e.1 = k
+    · rw [blGet_cons_pos _ _ _ (by simpa using he), blGet_cons_pos _ _ _ he]
+    · rw [blGet_cons_neg _ _ _ (by simpa using he), ih, blGet_cons_neg _ _ _ he]
+
+/-- no request waits for a master that is registered -/
+def FInv (s : Fwd) : Prop :=
+  (∀ m ∈ s.queues, blGet s.backlog (some m) = []) ∧ (s.queues ≠ [] → blGet s.backlog none = [])
+
+theorem finv_incoming (gs : List (Option Nat × List Nat)) : ∀ s, FInv s → FInv (fwdIncoming s gs) := by
+  induction gs with
+  | nil => intro s h; exact h
+  | cons g gs ih =>
+    intro s h
+    obtain ⟨k, ts⟩ := g
+    unfold fwdIncoming
+    cases k with
+    | some m =>
+      simp only
+      split
+      · exact ih _ h
+      · rename_i hm
+        apply ih
+        refine ⟨fun m' hm' => ?_, fun hq => ?_⟩
+        · show blGet (blAdd s.backlog (some m) ts) (some m') = []
+          rw [blGet_add]
+          have : ¬ (some m' = some m) := by
+            intro e; injection e with e; subst e; exact hm hm'
+          simp [this, h.1 m' hm']
+        · show blGet (blAdd s.backlog (some m) ts) none = []
+          rw [blGet_add]; simp [h.2 hq]
+    | none =>
+      simp only
+      split
+      · exact ih _ h
+      · rename_i hq
+        apply ih
+        have hq' : s.queues = [] := by simpa using hq
+        refine ⟨fun m' hm' => ?_, fun hq2 => absurd hq' hq2⟩
+        show blGet (blAdd s.backlog none ts) (some m') = []
+        rw [hq'] at hm'; cases hm'
+
+theorem finv_step (s : Fwd) (op : FOp) (h : FInv s) : FInv (fwdStep s op) := by
+  cases op with
+  | incoming gs => exact finv_incoming gs s h
+  | register m =>
+    refine ⟨fun m' hm' => ?_, fun _ => ?_⟩
+    · show blGet (blDel (blDel s.backlog (some m)) none) (some m') = []
+      rw [blGet_del, blGet_del]
+      by_cases hmm : m' = m
+      · simp [hmm]
+      · have hin : m' ∈ s.queues := by
+          have : m' ∈ (if m ∈ s.queues then s.queues else s.queues ++ [m]) := hm'
+          split at this
+          · exact this
+          · rcases mem_append.mp this with h1 | h1
+            · exact h1
+            · simp at h1; exact absurd h1 hmm
+        have : ¬ (some m' = some m) := by intro e; injection e with e; exact hmm e
+        simp [this, h.1 m' hin]
+    · show blGet (blDel (blDel s.backlog (some m)) none) none = []
+      rw [blGet_del]; simp
+  | unregister m =>
+    refine ⟨fun m' hm' => ?_, fun hq => ?_⟩
+    · show blGet (blDel s.backlog (some m)) (some m') = []
+      have hin : m' ∈ s.queues := (mem_filter.mp hm').1
+      rw [blGet_del]
+      split
+      · rfl
+      · exact h.1 m' hin
+    · show blGet (blDel s.backlog (some m)) none = []
+      have hq' : s.queues ≠ [] := by
+        intro e
+        apply hq
+        show s.queues.filter (· ≠ m) = []
+        rw [e]; rfl
+      rw [blGet_del]; simp [h.2 hq']
+  | cancel us =>
+    refine ⟨fun m' hm' => ?_, fun hq => ?_⟩
+    · show blGet (s.backlog.map (fun e => (e.1, e.2.filter (fun t => decide (t ∉ us))))) (some m') = []
+      rw [blGet_filter, h.1 m' hm']; rfl
+    · show blGet (s.backlog.map (fun e => (e.1, e.2.filter (fun t => decide (t ∉ us))))) none = []
+      rw [blGet_filter, h.2 hq]; rfl
+
+end RPVerif.Raptor
